@@ -37,6 +37,11 @@ class Boom(Exception):
     pass
 
 
+# the site start seam: without aiofastnet, web_runner falls back to loop.create_server - the virtual loop's
+# socket-less fake - so that _run_app really reaches its serving state (and is then stopped by cancellation)
+import aiohttp.web_runner as _web_runner  # noqa: E402
+_web_runner.aiofastnet = None
+
 # ============================================================ section ctx
 def make_ctx(log, name, flavour, beh):
     if flavour == "gen":
@@ -49,6 +54,8 @@ def make_ctx(log, name, flavour, beh):
             log.append(("exit", name))
             if beh == "fail_teardown":
                 raise Boom(f"teardown {name}")
+            if beh == "cancelled_teardown":
+                raise asyncio.CancelledError()      # what `task.cancel(); await task` on a background task raises
         return ctx
 
     class Ctx(contextlib.AbstractAsyncContextManager):
@@ -62,6 +69,8 @@ def make_ctx(log, name, flavour, beh):
             log.append(("exit", name))
             if beh == "fail_teardown":
                 raise Boom(f"teardown {name}")
+            if beh == "cancelled_teardown":
+                raise asyncio.CancelledError()
 
     return lambda app: Ctx()
 
@@ -213,6 +222,14 @@ def ctx_configs(quick):
                     continue
                 yield {"entry": entry, "ctxs": list(ctxs), "sub": None, "sub_first": False,
                        "on_startup": None, "on_shutdown": None, "on_cleanup": None}
+        # a teardown that ends in CancelledError (it awaited a background task it had cancelled)
+        for n in (2, 3):
+            for pos in range(n):
+                for fl in FL:
+                    ctxs = [("gen", "ok")] * n
+                    ctxs[pos] = (fl, "cancelled_teardown")
+                    yield {"entry": entry, "ctxs": list(ctxs), "sub": None, "sub_first": False,
+                           "on_startup": None, "on_shutdown": None, "on_cleanup": None}
         # signal handlers and a sub-application around a 2-context app
         for ctxs in itertools.product([("gen", b) for b in BEH], repeat=2):
             for su, sd, sc in itertools.product((None, "ok", "raise"), repeat=3):
